@@ -350,18 +350,65 @@ func c30(c *engine.Ctx) {
 	if ld, ok := keyV.(*ssa.UnOp); ok {
 		keyAlloc, _ = ld.X.(*ssa.Alloc)
 	}
+	// The key may be rebuilt and checked in a helper of the package that
+	// returns (key, ok): then the variable, its writes and the comparison are
+	// looked for in the helper, whose record parameter must receive the loaded
+	// record, and the adoption must be behind ok == true.
+	var helperCall *ssa.Call
+	recIn := recD
+	{
+		v := keyV
+		if keyAlloc != nil {
+			// a local that merely holds the helper's result
+			stores := 0
+			var sv2 ssa.Value
+			for _, r := range *keyAlloc.Referrers() {
+				if st, ok := r.(*ssa.Store); ok && st.Addr == ssa.Value(keyAlloc) {
+					stores++
+					sv2 = st.Val
+				}
+			}
+			if stores == 1 {
+				v = sv2
+			}
+		}
+		if ex, ok := v.(*ssa.Extract); ok && ex.Index == 0 {
+			if call, isC := ex.Tuple.(*ssa.Call); isC {
+				if h := call.Common().StaticCallee(); h != nil && h.Pkg == rest.Pkg && len(h.Blocks) > 0 && h.Signature.Results().Len() == 2 {
+					for _, r := range engine.Returns(h) {
+						if ld, isL := r.Results[0].(*ssa.UnOp); isL {
+							if al, isA := ld.X.(*ssa.Alloc); isA {
+								helperCall, keyAlloc = call, al
+							}
+						}
+					}
+					if helperCall != nil {
+						for i, p := range h.Params {
+							if engine.Describe(call.Common().Args[i]) == recD {
+								recIn = "p:" + engine.ParamName(p)
+							}
+						}
+					}
+				}
+			}
+		}
+	}
 	n3++
 	dcV, saltV := engine.StructFieldValue(sv, "DC"), engine.StructFieldValue(sv, "Salt")
-	c.Check(keyAlloc != nil && dcV != nil && saltV != nil && engine.Describe(dcV) == recD+".DC" && engine.Describe(saltV) == recD+".Salt", "C30.R3", "restoreConnection/adopts-loaded-record", adopt.Pos(), "the adopted session must pair the checked key with DC and Salt of the same loaded record (DC %s, Salt %s)", engine.Describe(dcV), engine.Describe(saltV))
+	c.Check(keyAlloc != nil && dcV != nil && saltV != nil && engine.Describe(dcV) == recD+".DC" && engine.Describe(saltV) == recD+".Salt" && (helperCall == nil || recIn != recD), "C30.R3", "restoreConnection/adopts-loaded-record", adopt.Pos(), "the adopted session must pair the checked key with DC and Salt of the same loaded record (DC %s, Salt %s)", engine.Describe(dcV), engine.Describe(saltV))
 	if keyAlloc == nil {
 		return
 	}
+	recD = recIn
 	// writes to the key variable: exactly copy(key.Value[:], rec.AuthKey) and copy(key.ID[:], rec.AuthKeyID)
 	writes := map[string][]string{}
 	for _, r := range *keyAlloc.Referrers() {
 		switch x := r.(type) {
 		case *ssa.Store:
 			if x.Addr == ssa.Value(keyAlloc) {
+				if ld, isL := x.Val.(*ssa.UnOp); isL && ld.Op == token.MUL && ld.X == ssa.Value(keyAlloc) {
+					continue // "return key, …" of a named result: the variable assigned to itself
+				}
 				writes["<whole>"] = append(writes["<whole>"], engine.Describe(x.Val))
 			}
 		case *ssa.FieldAddr:
@@ -394,6 +441,44 @@ func c30(c *engine.Ctx) {
 	c.Check(okW, "C30.R3", "restoreConnection/key-and-id-only-from-storage", adopt.Pos(), "the compared key and key id must each be written exactly once, by the copy from the stored AuthKey / AuthKeyID (a recomputed or defaulted id makes the integrity test vacuous); writes: %v", writes)
 	// guard
 	n3++
+	idEqual := func(x, y ssa.Value) bool {
+		idc := engine.CallOf(x)
+		if idc == nil || engine.CalleeID(idc.Common()) != "(crypto.Key).ID" {
+			return false
+		}
+		recv, okR := engine.Args(idc.Common())[0].(*ssa.UnOp)
+		if !okR {
+			return false
+		}
+		fa, okF := recv.X.(*ssa.FieldAddr)
+		if !okF || fa.X != ssa.Value(keyAlloc) || engine.FieldNameOf(fa) != "Value" {
+			return false
+		}
+		ly, okY := y.(*ssa.UnOp)
+		if !okY {
+			return false
+		}
+		fy, okFY := ly.X.(*ssa.FieldAddr)
+		return okFY && fy.X == ssa.Value(keyAlloc) && engine.FieldNameOf(fy) == "ID"
+	}
+	if helperCall != nil {
+		h := helperCall.Common().StaticCallee()
+		okRet := true
+		for _, r := range engine.Returns(h) {
+			cmp, isC := r.Results[1].(*ssa.BinOp)
+			if !isC || cmp.Op != token.EQL || !(idEqual(cmp.X, cmp.Y) || idEqual(cmp.Y, cmp.X)) {
+				okRet = false
+			}
+		}
+		behind := engine.GuardedBy(adopt, func(k engine.Cmp) bool {
+			ex, isE := k.X.(*ssa.Extract)
+			b, isB := engine.ConstBool(k.Y)
+			return isE && ex.Tuple == ssa.Value(helperCall) && ex.Index == 1 && isB && ((b && k.Op == token.EQL) || (!b && k.Op == token.NEQ))
+		})
+		c.Check(okRet && behind, "C30.R3", "restoreConnection/key-id-matches", adopt.Pos(), "a stored session may be adopted only under key.Value.ID() == key.ID: %s must report exactly that comparison and the adoption must be behind its true result (comparison: %v, behind it: %v)", h.Name(), okRet, behind)
+		c.Floor("C30.R3", 3, n3)
+		return
+	}
 	g := engine.GuardedBy(adopt, func(k engine.Cmp) bool {
 		if k.Op != token.EQL {
 			return false
@@ -456,21 +541,33 @@ func keyDecision(a *ssa.Alloc) string {
 	if n != 2 || base == nil || perm == nil {
 		return "key variable is not assigned exactly {s.Key, s.PermKey}"
 	}
-	if !engine.Dominates(base, perm) {
-		return "s.Key is not the default assignment"
+	// "PermKey when it is non-zero, Key otherwise" can be written with either
+	// value as the unconditional default and the other assigned on the edge
+	// that decides against the default.
+	zeroIs := func(want bool) func(engine.Cmp) bool {
+		return func(k engine.Cmp) bool {
+			call, isC := engine.Unwrap(k.X).(*ssa.Call)
+			b, isB := engine.ConstBool(k.Y)
+			if !isC || !isB || engine.CalleeID(call.Common()) != "(crypto.AuthKey).Zero" || engine.Describe(engine.Args(call.Common())[0]) != "p:s.PermKey" {
+				return false
+			}
+			return (k.Op == token.EQL && b == want) || (k.Op == token.NEQ && b != want)
+		}
 	}
-	if len(engine.Guards(base)) != 0 && engine.GuardedBy(base, func(k engine.Cmp) bool {
-		return strings.Contains(engine.Describe(k.X), "Zero(")
-	}) {
-		return "the default assignment is conditional"
+	onZero := func(st *ssa.Store) bool {
+		return engine.GuardedBy(st, zeroIs(true)) || engine.GuardedBy(st, zeroIs(false))
 	}
-	ok := engine.GuardedBy(perm, func(k engine.Cmp) bool {
-		call, isC := engine.Unwrap(k.X).(*ssa.Call)
-		b, isB := engine.ConstBool(k.Y)
-		return isC && isB && !b && k.Op == token.EQL && engine.CalleeID(call.Common()) == "(crypto.AuthKey).Zero" && engine.Describe(engine.Args(call.Common())[0]) == "p:s.PermKey"
-	})
-	if !ok {
-		return "s.PermKey is not chosen exactly under !s.PermKey.Zero()"
+	switch {
+	case engine.Dominates(base, perm) && !onZero(base):
+		if !engine.GuardedBy(perm, zeroIs(false)) {
+			return "s.PermKey is not chosen exactly under !s.PermKey.Zero()"
+		}
+	case engine.Dominates(perm, base) && !onZero(perm):
+		if !engine.GuardedBy(base, zeroIs(true)) {
+			return "s.Key does not replace s.PermKey exactly under s.PermKey.Zero()"
+		}
+	default:
+		return "neither s.Key nor s.PermKey is an unconditional default assignment"
 	}
 	return ""
 }
@@ -482,21 +579,41 @@ func keyDecisionPhi(phi *ssa.Phi) string {
 	if len(phi.Edges) != 2 {
 		return "key is not chosen between two values"
 	}
-	seenKey, seenPerm := false, false
-	for i, e := range phi.Edges {
+	zeroIs := func(want bool) func(engine.Cmp) bool {
+		return func(k engine.Cmp) bool {
+			call, isC := engine.Unwrap(k.X).(*ssa.Call)
+			b, isB := engine.ConstBool(k.Y)
+			if !isC || !isB || engine.CalleeID(call.Common()) != "(crypto.AuthKey).Zero" || engine.Describe(engine.Args(call.Common())[0]) != "p:s.PermKey" {
+				return false
+			}
+			return (k.Op == token.EQL && b == want) || (k.Op == token.NEQ && b != want)
+		}
+	}
+	// the edge pred → phi block carries the decision either as a guard of the
+	// predecessor or as the branch edge itself
+	edgeSays := func(i int, want bool) bool {
 		pred := phi.Block().Preds[i]
-		last := pred.Instrs[len(pred.Instrs)-1]
+		if engine.GuardedBy(pred.Instrs[len(pred.Instrs)-1], zeroIs(want)) {
+			return true
+		}
+		return engine.EdgesWhere(phi.Parent(), zeroIs(want))[[2]*ssa.BasicBlock{pred, phi.Block()}]
+	}
+	seenKey, seenPerm, decided := false, false, false
+	for i, e := range phi.Edges {
 		switch engine.Describe(e) {
 		case "p:s.Key":
 			seenKey = true
+			if edgeSays(i, true) {
+				decided = true
+			} else if edgeSays(i, false) {
+				return "s.Key is chosen although s.PermKey is non-zero"
+			}
 		case "p:s.PermKey":
-			seenPerm = engine.GuardedBy(last, func(k engine.Cmp) bool {
-				call, isC := engine.Unwrap(k.X).(*ssa.Call)
-				b, isB := engine.ConstBool(k.Y)
-				return isC && isB && !b && k.Op == token.EQL && engine.CalleeID(call.Common()) == "(crypto.AuthKey).Zero" && engine.Describe(engine.Args(call.Common())[0]) == "p:s.PermKey"
-			})
-			if !seenPerm {
-				return "s.PermKey is not chosen exactly under !s.PermKey.Zero()"
+			seenPerm = true
+			if edgeSays(i, false) {
+				decided = true
+			} else if edgeSays(i, true) {
+				return "s.PermKey is chosen although it is zero"
 			}
 		default:
 			return "unexpected key source " + engine.Describe(e)
@@ -504,6 +621,9 @@ func keyDecisionPhi(phi *ssa.Phi) string {
 	}
 	if !seenKey || !seenPerm {
 		return "key is not chosen between s.Key and s.PermKey"
+	}
+	if !decided {
+		return "the choice between s.Key and s.PermKey does not depend on s.PermKey.Zero()"
 	}
 	return ""
 }
